@@ -54,14 +54,7 @@ impl HasKey<PkePublic> for V1 {
 impl HasKey<PkeSecret> for V1 {
     type Key = PkeSecretKey;
     fn decode(bytes: &[u8]) -> Result<PkeSecretKey, PasetoError> {
-        use rsa::pkcs1::DecodeRsaPrivateKey;
-
-        let key = if let Ok(key) = rsa::RsaPrivateKey::from_pkcs1_der(bytes) {
-            key
-        } else {
-            let s = str::from_utf8(bytes).map_err(|_| PasetoError::InvalidKey)?;
-            rsa::RsaPrivateKey::from_pkcs1_pem(s).map_err(|_| PasetoError::InvalidKey)?
-        };
+        let key = super::decode_rsa_private_key(bytes)?;
 
         if key.n().bits() != 4096 {
             return Err(PasetoError::InvalidKey);
